@@ -103,6 +103,10 @@ func (v *V) sexp(canon bool) string {
 		}
 		return "(" + strings.Join(parts, " ") + ")"
 	}
+	if v.K == "nilref" {
+		// a nil pointer where the bindings hold a value by reference: rendered, never equal to a value
+		return "(nilref)"
+	}
 	panic("bad value kind " + v.K)
 }
 
